@@ -318,7 +318,17 @@ impl Gen {
         if split && st.main_len == 0 && st.old_len > 0 && self.rng.gen_bool(0.55) {
             let d = 3 - s;
             let two = nslots == 2 && w.alive(d);
-            let pick = self.rng.gen_range(0..12);
+            if self.cfg.par && self.rng.gen_bool(0.5) {
+                return self.par_op(w, s, nslots);
+            }
+            if self.cfg.serde && self.rng.gen_bool(0.5) {
+                let mut o = json!({"op":"Serde","s":s,"d":d,"hm":self.cfg.hm});
+                if self.cfg.set && w.alive(d) && self.rng.gen_bool(0.5) {
+                    o["inplace"] = json!(1);
+                }
+                return o;
+            }
+            let pick = self.rng.gen_range(0..15);
             let pred = if self.rng.gen_bool(0.5) { json!({"none":1}) } else { self.pred(w, s) };
             return match pick {
                 0 | 1 => json!({"op":"DrainFilter","s":s,"pred":pred,"end":"exhaust"}),
@@ -332,6 +342,13 @@ impl Gen {
                 9 if two => json!({"op":"Eq","s":s,"d":d}),
                 8 | 9 => json!({"op":"Clone","s":s,"d":d}),
                 10 => json!({"op":"ShrinkToFit","s":s}),
+                // read-only calls must find everything although the main table is empty
+                12 | 13 if !self.cfg.set => {
+                    let kinds = ["get", "contains_key", "get_key_value", "get_mut", "index", "raw_key"];
+                    json!({"op":"Get","s":s,"k": self.any_key(w, s),"kind": *kinds.choose(&mut self.rng).unwrap()})
+                }
+                12 | 13 => json!({"op": *["SContains", "SGet"].choose(&mut self.rng).unwrap(),"s":s,"k": self.any_key(w, s)}),
+                14 => json!({"op":"Debug","s":s}),
                 _ => json!({"op":"Extend","s":s,"items":[[self.key_absent(w, s), self.val()]],"hint":1}),
             };
         }
@@ -339,10 +356,16 @@ impl Gen {
         if std::mem::replace(&mut self.promised, false) && !self.cfg.zst && st.main_cap - st.main_len < 300 && self.rng.gen_bool(0.25) {
             return json!({"op":"Probe","s":s});
         }
-        if self.cfg.par && self.rng.gen_bool(if split { 0.45 } else { 0.15 }) {
+        // rayon / serde suites: "in any resize phase" -- start a resize now and then (a reserve beyond the
+        // free room parks every element in the old table), so that the traversals below mostly see two tables
+        if (self.cfg.par || self.cfg.serde) && !split && len >= 2 && !self.cfg.zst && self.rng.gen_bool(0.12) {
+            let free = st.main_cap.saturating_sub(st.main_len);
+            return json!({"op":"Reserve","s":s,"n": free + self.rng.gen_range(0..3usize)});
+        }
+        if self.cfg.par && self.rng.gen_bool(if split { 0.6 } else { 0.15 }) {
             return self.par_op(w, s, nslots);
         }
-        if self.cfg.serde && self.rng.gen_bool(if split { 0.35 } else { 0.12 }) {
+        if self.cfg.serde && self.rng.gen_bool(if split { 0.5 } else { 0.12 }) {
             let d = 3 - s;
             let mut o = json!({"op":"Serde","s":s,"d":d,"hm":self.cfg.hm});
             if self.cfg.set && w.alive(d) && self.rng.gen_bool(0.5) {
